@@ -338,9 +338,9 @@ Proof.
   { destruct G1 as (A & B & D & E). destruct Hn as [Hn | Hn].
     - inversion Hn; subst; auto.
     - cbn [fst snd] in Hn. rewrite Forall_forall in E. apply (E (id, tree) Hn). }
+  pose proof (good_reload cfg tree Gt) as Gr.
   destruct (node_ts (reload tree) <? tsf); cbn [fst]; sg; cbn [s_root s_last s_snaps s_dumps opt_good]; auto.
-  - apply good_set_ts, good_reload; auto.
-  - apply good_reload; auto.
+  apply good_set_ts; auto.
 Qed.
 
 Theorem mstep_good cfg st o : cfg_ok cfg -> st_good cfg st -> st_good cfg (mstep cfg st o).
@@ -553,7 +553,10 @@ Theorem mstep_content cfg st o : cfg_ok cfg -> st_good cfg st ->
       match spec_insert cfg (node_ts (s_root st)) kvts (abs (s_root st)) with
       | Refused => abs (s_root st') = abs (s_root st)
       | Accepted m' => abs (s_root st') = m'
-      | Rejected => True   (* see rollback_refuted: the tree may go back to an older state *)
+      | Rejected =>        (* see rollback_refuted: the tree may go back to the last flushed root *)
+          abs (s_root st') = abs (s_root st) \/
+          (exists l, s_last st = Some l /\ abs (s_root st') = abs l) \/
+          (s_last st = None /\ abs (s_root st') = [])
       end
   | MReopen => abs (s_root st') = abs (s_root st) \/
                exists d, In d (s_dumps st) /\ abs (s_root st') = abs (snd d)
@@ -579,8 +582,18 @@ Proof.
       * destruct P as [P1 _]. rewrite P1. cbn [fst].
         match goal with |- abs (s_root (if ?b then _ else _)) = _ => destruct b end;
           rewrite ?flush_tree_abs; reflexivity.
-      * rewrite P. exact I.
-    + rewrite P. exact I.
+      * rewrite P. left. exact A1.
+    + rewrite P. cbn [fst]. cbn [s_mut s_last with_counts].
+      assert (L1 : s_last st1 = s_last st \/ (exists r, s_last st1 = Some r /\ abs r = abs (s_root st))).
+      { unfold st1. destruct (_ && _); auto. unfold flush_tree. destruct (_ && _); auto.
+        right. eexists. split; [reflexivity|]. apply flush_node_abs. }
+      destruct (s_mut st1); [|left; exact A1].
+      destruct (s_last st1) as [l|] eqn:El; cbn [s_root with_root].
+      * destruct L1 as [L1 | (r & L1 & L2)].
+        -- right. left. exists l. split; [congruence | reflexivity].
+        -- left. inversion L1; subst. exact L2.
+      * destruct L1 as [L1 | (r & L1 & _)]; [|discriminate].
+        right. right. split; [congruence | reflexivity].
   - unfold increase_ts. destruct (_ <=? _); [reflexivity|]. cbn [fst].
     match goal with |- abs (s_root (if ?b then _ else _)) = _ => destruct b end;
       rewrite ?flush_tree_abs; apply set_node_ts_abs.
@@ -619,20 +632,19 @@ Definition cfg_w : config :=
 Example cfg_w_ok : cfg_ok cfg_w.
 Proof. unfold cfg_ok, cfg_sizes, required_node_size. vm_compute. discriminate. Qed.
 
-(* a@1, a@2, flush, b@5, b@6, b@7, flush; GetBetween(b, 1, 3) returns a's value at ts 1 *)
+(* a@1, a@2, flush, b@5, b@6, b@7, flush; GetBetween(b, 1, 3): before e30fc04 this returned a's value
+   at ts 1 (the loop walked into block 0 of the history log); now: not found, as the map says *)
 Definition ops_overrun : list mop :=
   [MInsert [([97], [65; 49], 1)]; MInsert [([97], [65; 50], 2)]; MFlush false;
    MInsert [([98], [66; 53], 5)]; MInsert [([98], [66; 54], 6)]; MInsert [([98], [66; 55], 7)];
    MFlush false].
 
-Theorem get_between_refuted :
-  exists cfg ops k i f, cfg_ok cfg /\
-    let st := mrun cfg ops in
-    get_between (s_h0 st) (s_root st) k i f = Some ([65; 49], 1, 0) /\
-    mv_get_between k i f (abs (s_root st)) = None.
-Proof.
-  exists cfg_w, ops_overrun, [98], 1, 3. split; [exact cfg_w_ok|]. vm_compute. split; reflexivity.
-Qed.
+Example get_between_overrun_fixed :
+  let st := mrun cfg_w ops_overrun in
+  s_h0 st = [([65; 49], 1)] /\
+  get_between (s_h0 st) (s_root st) [98] 1 3 = None /\
+  mv_get_between [98] 1 3 (abs (s_root st)) = None.
+Proof. vm_compute. repeat split; reflexivity. Qed.
 
 (* a@1, flush, c@2 (accepted), then the batch [d@9; d@8]: the map rejects it, so nothing may change;
    the tree goes back to the last flushed root and c is gone *)
@@ -649,4 +661,51 @@ Theorem rollback_refuted :
 Proof.
   exists cfg_w, ops_rollback, [([100], [68; 57], 9); ([100], [68; 56], 8)], [99].
   split; [exact cfg_w_ok|]. vm_compute. repeat split; reflexivity.
+Qed.
+
+(* 18b7c7d: after a restart the last flushed root is the loaded root, and it never becomes
+   undefined again, so a rejected batch can no longer replace the tree by an empty one *)
+Lemma flush_tree_last_some cfg h f st : s_last st <> None -> s_last (flush_tree cfg h f st) <> None.
+Proof. unfold flush_tree. destruct (_ && _); auto. unfold do_flush. cbn [s_last]. discriminate. Qed.
+
+Theorem last_stays_defined cfg st o : s_last st <> None -> s_last (mstep cfg st o) <> None.
+Proof.
+  intros H. destruct o; cbn [mstep].
+  - unfold bulk_insert. destruct (is_nil kvts); [exact H|].
+    set (st1 := if _ && _ then flush_tree cfg (c_cleanup cfg) false st else st).
+    assert (H1 : s_last st1 <> None) by (unfold st1; destruct (_ && _); auto using flush_tree_last_some).
+    destruct (validate _ _ _) as [ik|]; [|exact H1].
+    destruct (insert _ _ _) as [nodes|].
+    + destruct (grow _ _ _ _) as [r|]; [|exact H1]. cbn [fst].
+      match goal with |- s_last (if ?b then _ else _) <> None => destruct b end;
+        [apply flush_tree_last_some|]; exact H1.
+    + cbn [fst]. destruct (s_mut _); [|exact H1].
+      cbn [s_last with_counts]. destruct (s_last st1) eqn:El; [|congruence].
+      cbn [s_last with_root with_counts]. rewrite El. discriminate.
+  - unfold increase_ts. destruct (_ <=? _); [exact H|]. cbn [fst].
+    match goal with |- s_last (if ?b then _ else _) <> None => destruct b end;
+      [apply flush_tree_last_some|]; exact H.
+  - apply flush_tree_last_some; auto.
+  - apply flush_tree_last_some; auto.
+  - unfold compact. destruct (_ <? _); [exact H|].
+    match goal with |- s_last (fst (if ?b then _ else _)) <> None => destruct b end;
+      cbn [fst s_last with_dumps]; apply flush_tree_last_some; auto.
+  - unfold reopen. destruct (negb _); [exact H|].
+    destruct (newest_dump _ _) as [[id tree] tsf]. destruct (_ <? _); cbn [fst s_last]; discriminate.
+  - unfold snapshot. destruct (_ <? _); [exact H|]. destruct (_ =? _); [exact H|].
+    set (st1 := if s_mut st then _ else st).
+    assert (H1 : s_last st1 <> None).
+    { unfold st1. destruct (s_mut st); auto.
+      match goal with |- s_last (if ?b then _ else _) <> None => destruct b end; auto using flush_tree_last_some. }
+    set (st2 := if s_mut st1 then st1 else with_last st1 (Some (s_root st1))).
+    assert (H2 : s_last st2 <> None) by (unfold st2; destruct (s_mut st1); [exact H1 | discriminate]).
+    destruct (s_last st2) eqn:El; [|congruence]. cbn [fst s_last with_snaps]. rewrite El. discriminate.
+  - unfold snap_close. destruct (snap_find id st); exact H.
+Qed.
+
+Theorem reopen_defines_last cfg st st' : reopen cfg st = (st', true) -> s_last st' <> None.
+Proof.
+  unfold reopen. destruct (negb _); [discriminate|].
+  destruct (newest_dump _ _) as [[id tree] tsf]. destruct (_ <? _); intros E; inversion E; subst;
+    cbn [s_last]; discriminate.
 Qed.
